@@ -141,9 +141,15 @@ def gen_plan(prop, base_seed, i, tier):
         plan["sim"].pop("faults", None)
         plan["config"]["threshold"] = 0
         return plan
-    if prop == "C18" and rng.random() < 0.15:
+    if prop == "C18" and rng.random() < 0.2:
+        # the command-line run: counts are read back from <output>.stats, rows from the output CSV
         plan["source"] = "cli"
         plan["sim"].pop("faults", None)
+        if rng.random() < 0.6:
+            plan["rows"] = [{"reaction": r, "tag": "t%d" % k, "grp": k % 3} for k, r in enumerate(plan["rows"])]
+            plan["passthrough"] = ["tag", "grp"]
+        if rng.random() < 0.5:
+            plan["config"]["batch_size"] = rng.choice([1, 2, 3, len(plan["rows"])])
     if prop == "C18" and rng.random() < 0.3:
         # malformed rows are passed through unsolved; the counts must still describe the run
         from .c05 import POISON
